@@ -527,9 +527,25 @@ def generate_system(rng, tier, index):
         at = int(rng.integers(0, n - 2))
         motif = {at: {a: {"mode": "free"}}, at + 1: {a: {"mode": "size_pos", "sk": _choice(rng, ["pgs", "prs"]), "pos_kind": "rel", "pos_ref": f"o{at}"}},
                  at + 2: {a: {"mode": _choice(rng, ["size_only", "size_pos"], p=[0.7, 0.3]), "sk": "rel", "size_ref": (f"o{at + 1}", a)}}}
+    chain_axis = None
+    if motif is None and rng.uniform() < 0.15:
+        # motif: a long dependency chain on one axis - every link copies the extent of its predecessor (size constraint) and is
+        # positioned against it; the number of solver sweeps needed then depends on the order of the constraint list
+        # (dependency order settles a link per in-pass propagation, reverse order needs about two sweeps per link)
+        n = int(rng.integers(5, 10))
+        chain_axis = a = int(rng.integers(0, 3))
+        motif = {0: {a: {"mode": "size_pos", "sk": _choice(rng, ["pgs", "prs"]), "pos_kind": _choice(rng, ["coord", "prp"])}}}
+        for i in range(1, n):
+            motif[i] = {a: {"mode": "size_pos", "sk": "rel", "size_ref": (f"o{i - 1}", a), "pos_kind": "rel", "pos_ref": f"o{i - 1}"}}
+            if rng.uniform() < 0.6:  # open transverse axes (extension to infinity), as in a stack of slabs
+                for b in range(3):
+                    if b != a:
+                        motif[i][b] = {"mode": "free"}
     for i in range(n):
         g.add_object(i, None if motif is None else motif.get(i))
     variant = _choice(rng, ["consistent", "under", "over_consistent", "over_inconsistent"], p=[0.5, 0.17, 0.18, 0.15])
+    if chain_axis is not None and rng.uniform() < 0.7:
+        variant = "consistent"
     cons = g.cons
     objects = g.objects
     if variant == "under":
@@ -585,6 +601,16 @@ def generate_system(rng, tier, index):
         spec["volume_real_shape"] = [float(nn * SPACING + _delta(rng, SPACING)) for nn in g.shape]
     spec["family"] = family_of(spec)
     spec["orders"] = make_orders(rng, len(names), len(cons), K)
+    if chain_axis is not None and len(cons) >= 2:
+        spec["chain_axis"] = chain_axis
+
+        def rank(name):
+            return -1 if name == VOL else int(name[1:])
+
+        dep_c = sorted(range(len(cons)), key=lambda j: (rank(cons[j]["object"]), j))
+        dep_o = sorted(range(len(names)), key=lambda j: rank(names[j]))
+        # dependency order and exact reverse dependency order of both lists, next to the seeded permutations
+        spec["orders"] += [[dep_o, dep_c], [dep_o[::-1], dep_c[::-1]], [dep_o, dep_c[::-1]]]
     return spec
 
 
@@ -951,6 +977,9 @@ def execute_common(spec):
     stats["placements_failed"] = n_orders - n_ok
     stats["system_success_all_orders"] = int(n_ok == n_orders)
     stats["system_failure_all_orders"] = int(n_ok == 0)
+    if "chain_axis" in spec:
+        stats["probe_dependency_chain"] = 1
+        stats["probe_dependency_chain_all_orders_succeeded"] = int(n_ok == n_orders)
     outcome = "success_all_orders" if n_ok == n_orders else ("failure_all_orders" if n_ok == 0 else "mixed_orders")
     stats[f"{fam}_{outcome}"] = 1
     stats[f"{fam}_placements_checked"] = n_ok
